@@ -18,7 +18,9 @@ ARGS = {
 }
 ACCOUNTS = ["default", "0", "5", "2^31-2", "2^31-1", "2^31", "-1", "x"]
 BOUNDS = ["-1", "0", "1", "3", "2^31-1", "2^31", "2^31+1", "2^32-2", "2^32-1", "x"]
-FILES = ["none", "absent", "existing", "dir", "symlink-to-file", "dangling-symlink", "parent-missing", "empty-string"]
+FILES = ["none", "absent", "existing", "dir", "symlink-to-file", "dangling-symlink", "parent-missing", "empty-string",
+         "symlink-rel-in-subdir", "symlink-up", "symlink-abs-to-file", "symlink-to-dir", "existing-dotdot", "absent-in-subdir"]
+PWS = ["none", "ascii", "nfkd-sensitive", "blank-padded", "empty"]
 
 
 def all_vectors():
@@ -42,11 +44,17 @@ def all_vectors():
                 if key in seen:
                     continue
                 seen.add(key)
-                out.append({"cmd": c, "arg": a, "file": f, "testnet": t, "paranoia": p, "account": x, "start": s, "end": e, "help": False})
+                out.append({"cmd": c, "arg": a, "file": f, "testnet": t, "paranoia": p, "account": x, "start": s, "end": e, "help": False,
+                            "pw": "none"})
+            # the passphrase option (also on sub-commands that do not have it), to stdout and to a new file
+            for w in PWS[1:]:
+                for f, t, p in itertools.product(("none", "absent"), (False, True), (False, True)):
+                    out.append({"cmd": c, "arg": a, "file": f, "testnet": t, "paranoia": p, "account": "default", "start": "0", "end": "3",
+                                "help": False, "pw": w})
             # help requests (global and per sub-command), with and without a file option
             for f in ("none", "absent", "existing"):
                 out.append({"cmd": c, "arg": a, "file": f, "testnet": False, "paranoia": False, "account": "default",
-                            "start": "0", "end": "3", "help": True})
+                            "start": "0", "end": "3", "help": True, "pw": "none"})
     return out
 
 
@@ -65,7 +73,7 @@ def random_vectors(rng, n):
         out.append({"cmd": c, "arg": a, "file": rng.choice(FILES if rng.random() < 0.5 else ["none", "absent"]),
                     "testnet": rng.random() < 0.5, "paranoia": rng.random() < 0.5,
                     "account": rng.choice(ACCOUNTS if rng.random() < 0.4 else ["default", "0", "5", "2^31-2"]), "start": s, "end": e,
-                    "help": False})
+                    "help": False, "pw": rng.choice(PWS) if (c in ("new", "from-mnemonic", "from-entropy-hex") and rng.random() < 0.5) else "none"})
     return out
 
 
@@ -78,7 +86,7 @@ def is_big(v):
 def _obs(job):
     from .. import clirun
     vec, mode, eid = job
-    obs, extra = clirun.observe(vec, mode, password="pw" if (eid % 7 == 0 and vec["cmd"] in ("new", "from-mnemonic", "from-entropy-hex")) else None)
+    obs, extra = clirun.observe(vec, mode)
     return {"id": eid, "act": "Cli", "argv": vec, "mode": mode, "obs": obs, "args": extra["args"], "stderr_tail": extra["stderr_tail"]}
 
 
@@ -95,7 +103,8 @@ def pick(ctx, vecs):
             if v["file"] != "none" or v["account"] != "default" or (v["start"], v["end"]) != ("0", "3"):
                 if (v["start"], v["end"]) == ("0", "3") or v["cmd"] == "from-bip39-seed":
                     keep.append(v)
-        elif v["file"] == "none" and v["account"] == "default" and (v["start"], v["end"]) == ("0", "3") and not v["testnet"]:
+        elif v["file"] == "none" and v["account"] == "default" and (v["start"], v["end"]) == ("0", "3") and not v["testnet"] \
+                and (v["pw"] == "none" or v["arg"] == good.get(v["cmd"])):
             keep.append(v)
     rest = [v for v in vecs if v not in keep]
     keep += rng.sample(rest, 250)
@@ -128,7 +137,7 @@ def run(ctx):
         events = pool.map(_obs, jobs, chunksize=4)
     for e in events:
         ctx.nontriv((e["argv"]["cmd"], e["argv"]["arg"], e["argv"]["file"], e["argv"]["account"], e["argv"]["start"], e["argv"]["end"],
-                     e["argv"]["paranoia"], e["argv"]["testnet"], e["obs"]["exit"]))
+                     e["argv"]["paranoia"], e["argv"]["testnet"], e["argv"]["pw"], e["obs"]["exit"]))
     for e in events[:2] + events[-1:]:
         ctx.sample({"argv": e["args"], "mode": e["mode"], "obs": {k: e["obs"][k] for k in ("exit", "stdout", "created", "equals_api", "net")}})
     ctx.notes["runs_exit_zero"] = sum(1 for e in events if e["obs"]["exit"] == 0)
